@@ -464,6 +464,24 @@ func runCall(cfg int, gas uint64, value *big.Int, to common.Address, code, input
 	return head, run
 }
 
+// runStatic: like runCall but through the exported read-only entry point evm.StaticCall
+func runStatic(cfg int, gas uint64, to common.Address, code, input, aux []byte) (string, func() string) {
+	setConfig(cfg)
+	w := newWorld(code, aux)
+	cur = w.rec
+	obs = &stepObs{}
+	e := w.evm(gas)
+	head := fmt.Sprintf("scall %d %d %s %s %s ", cfg, gas, ha(to), hexTok(input), ctxToken(gas))
+	_, isPre := vm.PrecompiledContracts[to]
+	run := func() string {
+		ret, left, _, err := e.StaticCall(vm.AccountRef(origin), to, input, gas)
+		checkRetained()
+		retain(ret, head)
+		return fmt.Sprintf("%s %d %s %d s=%d h=%d d=%d", statusOf(err, isPre), left, hexTok(ret), len(w.rec.tape), obs.steps, obs.maxStack, obs.maxDepth)
+	}
+	return head, run
+}
+
 func runCreate(cfg int, gas uint64, value *big.Int, init []byte, aux []byte) (string, func() string) {
 	setConfig(cfg)
 	w := newWorld(nil, aux)
